@@ -74,6 +74,9 @@ GRAPHS = {
     "nested": {"A": [("B", "/B_main")], "B": [("C", "/C_main", "inner")], "C": []},
     "nested-whole": {"A": [("B", "/B_main")], "B": [("C", None, "inner"), ("C", "/C_main/C_sub", "inner")], "C": []},
     "missing-leaf": {"A": [("M", "/M_main")]},
+    "missing-then-good": {"A": [("M", "/M_main"), ("B", "/B_main")], "B": []},
+    "good-then-missing": {"A": [("B", "/B_main"), ("M", "/M_main")], "B": []},
+    "unparsable-then-good": {"A": [("U", "/x"), ("B", "/B_main")], "U": "broken", "B": []},
     "unparsable-leaf": {"A": [("U", "/x")], "U": "broken"},
     "missing-root": {},
     "vanished-root": {"A": []},      # the resource is removed after the cache was filled
@@ -409,6 +412,15 @@ def judge(rec, scn, urls, ref, s, outcomes, objs, before, after, fs, decisions):
             elif o[0] == "doc" and names_of_model(o[1]) != exp_names:
                 rec.violation("loadable-resource:%s-not-fully-resolved" % step[0],
                               "%s step %d: sections/properties %r, expected %r" % (sk, i, names_of_model(o[1]), exp_names), case)
+    if scn["graph"] in ("missing-then-good", "good-then-missing", "unparsable-then-good", "missing-leaf", "unparsable-leaf") \
+            and len(outcomes) == len(script):
+        # one include of the root cannot be resolved, whatever its position among the includes: the root is not loadable
+        for i, (step, o) in enumerate(zip(script, outcomes)):
+            if step[0] in ("load", "tload") and step[1] == "A":
+                rec.monitor("resolved-structure")
+                if o[0] == "doc":
+                    rec.violation("unresolvable-include:%s-returned-a-document" % step[0],
+                                  "%s step %d: %r" % (sk, i, sorted(names_of_model(o[1]))), case)
     prev = {}
     if len(outcomes) == len(script):
         for i, (step, o) in enumerate(zip(script, outcomes)):
@@ -541,7 +553,8 @@ def _rank_of(s, i):
 
 def scenarios():
     out = []
-    for g in ("single", "chain", "nested", "nested-whole", "diamond", "missing-leaf", "unparsable-leaf", "missing-root", "vanished-root"):
+    for g in ("single", "chain", "nested", "nested-whole", "diamond", "missing-then-good", "good-then-missing", "unparsable-then-good",
+              "missing-leaf", "unparsable-leaf", "missing-root", "vanished-root"):
         for script in SCRIPTS:
             if g == "vanished-root":
                 if script in ("load-twice", "deferred+load", "template-load", "template-load-twice"):
@@ -549,6 +562,9 @@ def scenarios():
                         out.append({"graph": g, "script": script, "cache": cache})
                 continue
             if "B" in [st[1] for st in SCRIPTS[script]] and g not in ("chain", "diamond", "nested", "nested-whole"):
+                continue
+            if g in ("missing-then-good", "good-then-missing", "unparsable-then-good") and script not in (
+                    "load", "deferred+load", "template-load", "load-twice", "refresh"):
                 continue
             if g == "missing-root" and script not in ("load", "deferred+load", "template-load", "repository", "load-twice",
                                                        "template-load-twice"):
